@@ -7,6 +7,7 @@ import Driver.Robotics
 import Driver.Reader
 import Driver.IoFault
 import Driver.Snippet
+import Driver.ScalarRt
 /-!
 `modeldrv`: one request per line on stdin (`<area> <op> <args…>`), one answer per line on stdout.
 -/
@@ -23,6 +24,7 @@ def dispatch (line : String) : String :=
   | "reader" :: rest => Reader.handle rest
   | "iofault" :: rest => IoFault.handle rest
   | "snippet" :: rest => Snippet.handle rest
+  | "scalarrt" :: rest => ScalarRt.handle rest
   | _ => "bad-op"
 
 partial def loop (h : IO.FS.Stream) (out : IO.FS.Stream) : IO Unit := do
